@@ -217,6 +217,11 @@ def mutations(tier="thorough"):
 
 STRUCT = ["template", "absent", "empty_line_before", "code_before", "include_before", "line_comments", "one_block",
           "header_then_eof", "header_only_no_nl", "twelfth_line", "blank_after_then_body", "space_before_first_line"]
+# every single mutation of the list also goes through the REAL CheckHeader (not only through the z3 translation of its
+# pattern): a line removed, a frame line of the wrong width, a By / Created / Updated line blanked, two lines swapped
+STRUCT += ["rm_line_%d" % k for k in range(1, 12)] + ["frame_top_73", "frame_top_75", "frame_bottom_73", "frame_bottom_75",
+                                                        "by_blank", "created_blank", "updated_blank", "by_lowercase", "swap_8_9", "swap_1_2"]
+STRUCT_KNOWN_ACCEPTED = ()
 INSTANCES = [("main.c", "jdoe", "jdoe@student.42.fr", "2018/03/29 13:47:14", "2018/05/02 21:16:08"),
              ("a.h", "x", "x@y", "1970/01/01 00:00:00", "2099/12/31 23:59:59"),
              ("ft_very_long_file_name_for_the_header_tst.c", "abcdefghi", "abcdefghi@student.42lausan", "2024/02/29 09:09:09", "2024/02/29 09:09:10"),
@@ -259,6 +264,27 @@ def struct_text(kind, inst):
         return H + "\n" + BODY, 0
     if kind == "space_before_first_line":
         return " " + H + BODY, 1
+    if kind.startswith("rm_line_"):
+        k = int(kind.split("_")[-1])
+        return "\n".join(h[:k - 1] + h[k:]) + "\n" + BODY, 1
+    if kind.startswith("frame_"):
+        w = int(kind.split("_")[-1])
+        hh = list(h)
+        hh[0 if "top" in kind else 10] = "/* " + "*" * w + " */"
+        return "\n".join(hh) + "\n" + BODY, 1
+    if kind in ("by_blank", "created_blank", "updated_blank"):
+        hh = list(h)
+        hh[{"by_blank": 5, "created_blank": 7, "updated_blank": 8}[kind]] = BLANK
+        return "\n".join(hh) + "\n" + BODY, 1
+    if kind == "by_lowercase":
+        hh = list(h)
+        hh[5] = hh[5].replace("By: ", "by: ")
+        return "\n".join(hh) + "\n" + BODY, 1
+    if kind.startswith("swap_"):
+        a, b = [int(x) - 1 for x in kind.split("_")[1:]]
+        hh = list(h)
+        hh[a], hh[b] = hh[b], hh[a]
+        return "\n".join(hh) + "\n" + BODY, 1
     raise ValueError(kind)
 
 
